@@ -20,10 +20,11 @@ REASONS = {
     96: "tick-started-earlier-than-pacing-allows", 46: "tick-times-of-a-scheduler-decrease",
     71: "nested-and-flattened-configuration-observe-differently", 73: "harness-flattening-differs-from-coq-flatten",
     74: "inlined-system-differs-from-coq-flatten",
+    23: "schedule-explicit-model-differs-from-master-model",
     91: "disconnected-part-changes-observations",
     99: "simulation-stalled-or-raised",
 }
-CORR = {51, 52, 53, 54, 55, 73, 74}
+CORR = {51, 52, 53, 54, 55, 73, 74, 23}
 
 
 # ------------------------------------------------------------------ flattening (mirror of Oracle/SimOracle.v)
